@@ -332,6 +332,7 @@ class _Inliner:
             body = body[1:]
         sub = _Subst(mapping)
         body = [sub.visit(x) for x in body]
+        body = _prune(body)            # a constant passed for a flag parameter decides the helper's branches
         for x in body:
             for y in ast.walk(x):
                 if isinstance(y, ast.ExceptHandler) and y.name and y.name in mapping and isinstance(mapping[y.name], ast.Name):
@@ -497,6 +498,51 @@ class _Inliner:
 
 class _Blocked(Exception):
     pass
+
+
+def _truth(e):
+    """True / False if the test is decided by constants alone, else None."""
+    if isinstance(e, ast.Constant) and isinstance(e.value, (bool, int, type(None), str)):
+        return bool(e.value)
+    if isinstance(e, ast.UnaryOp) and isinstance(e.op, ast.Not):
+        v = _truth(e.operand)
+        return None if v is None else not v
+    if isinstance(e, ast.BoolOp):
+        vals = [_truth(v) for v in e.values]
+        if isinstance(e.op, ast.And):
+            # evaluation stops at the first false operand; operands before it must be side-effect free constants or tests
+            for v, node in zip(vals, e.values):
+                if v is False:
+                    return False
+                if v is None:
+                    break
+            return True if all(v is True for v in vals) else None
+        for v in vals:
+            if v is True:
+                return True
+            if v is None:
+                break
+        return False if all(v is False for v in vals) else None
+    return None
+
+
+def _prune(stmts):
+    out = []
+    for s in stmts:
+        if isinstance(s, ast.If):
+            s.body = _prune(s.body)
+            s.orelse = _prune(s.orelse)
+            t = _truth(s.test)
+            if t is True:
+                out.extend(s.body)
+                continue
+            if t is False:
+                out.extend(s.orelse)
+                continue
+            if not s.body:
+                s.body = [ast.Pass()]
+        out.append(s)
+    return out
 
 
 def _dead_after(caller, s, name):
